@@ -3,20 +3,22 @@
 usage: seed_store.py <src dir with patch.diff demo.rs meta.json> <name> <check id> ...   (applies the patch to /repo,
 runs the checks, reverts, writes meta.json['checks'])"""
 import json, os, shutil, subprocess, sys
+REPO = os.environ.get("VERIF_REPO", "/repo")
+VERIF = os.environ.get("SEED_VERIF", "/verif")
 src, name, checks = sys.argv[1], sys.argv[2], sys.argv[3:]
 dst = os.path.join("/verif/seeded", name)
 os.makedirs(dst, exist_ok=True)
 for f in ("patch.diff", "demo.rs"):
     shutil.copy(os.path.join(src, f), os.path.join(dst, f))
 meta = json.load(open(os.path.join(src, "meta.json")))
-if subprocess.run(["git", "-C", "/repo", "apply", "--check", os.path.join(dst, "patch.diff")]).returncode != 0:
+if subprocess.run(["git", "-C", REPO, "apply", "--check", os.path.join(dst, "patch.diff")]).returncode != 0:
     meta["checks"] = {"error": "patch does not apply to /repo HEAD"}
 else:
-    subprocess.run(["git", "-C", "/repo", "apply", os.path.join(dst, "patch.diff")], check=True)
+    subprocess.run(["git", "-C", REPO, "apply", os.path.join(dst, "patch.diff")], check=True)
     res = {}
     try:
         for c in checks:
-            p = subprocess.run(["./check", c], cwd="/verif", capture_output=True, text=True, timeout=1500)
+            p = subprocess.run(["./check", c], cwd=VERIF, capture_output=True, text=True, timeout=1500)
             lines = [l for l in p.stdout.splitlines() if l.startswith("VIOLATION")]
             how = "not reported"
             if lines:
@@ -31,7 +33,7 @@ else:
                     pass
             res[c] = {"exit": p.returncode, "reported": how, "violations_printed": len(lines), "first": detail}
     finally:
-        subprocess.run(["git", "-C", "/repo", "checkout", "--", "."], check=True)
+        subprocess.run(["git", "-C", REPO, "checkout", "--", "."], check=True)
     meta["checks"] = res
 json.dump(meta, open(os.path.join(dst, "meta.json"), "w"), indent=1, ensure_ascii=False)
 print(name, json.dumps(meta["checks"])[:400])
